@@ -119,6 +119,8 @@ def _schema(job):
     vals = {cols[j]: float(df[cols[j]].mean() + kmul * df[cols[j]].std() * (1 + 0.1 * j)) for j in cond}
     if container == 'dict-reversed':
         vals = dict(reversed(list(vals.items())))
+    if container == 'dict-zero':                     # a condition value that is exactly 0 (0.0 and the integer 0) is a value
+        vals = {c: (0.0 if i % 2 else 0) for i, c in enumerate(vals)}
     if container == 'dict-int':                      # integer-valued conditions (a dict the library might be tempted to normalise in place)
         vals = {c: int(round(v)) for c, v in vals.items()}
     conditions = pd.Series(vals) if container == 'series' else dict(vals)
@@ -142,6 +144,47 @@ def _schema(job):
             if not np.all(out[c].to_numpy() == v):
                 probs.append(('conditioned-column-not-equal-to-given-value', container))
                 break
+    return probs
+
+
+def _refit(job):
+    """an instance with a past: fitted to one table and sampled conditionally, then fitted to a table with another dependence and
+    sampled again on the same columns - the parameters handed to numpy must be those of the correlation the model carries now"""
+    from scipy import stats
+    from copulas.multivariate import GaussianMultivariate
+    from copulas.univariate import GaussianUnivariate
+    from copulas.utils import EPSILON
+    d, cond, seed = job
+    cols = NAMES[:d]
+    rs = np.random.RandomState(seed)
+    probs = []
+    m = GaussianMultivariate(distribution=GaussianUnivariate)
+    for life in range(2):
+        z = rs.normal(size=(70, d))
+        for j in range(1, d):
+            z[:, j] = (0.7 if life == 0 else -0.6) * z[:, j - 1] + 0.7 * z[:, j]
+        df = pd.DataFrame(z, columns=cols)
+        m.fit(df)
+        vals = {cols[j]: float(df[cols[j]].iloc[j] + 0.3) for j in cond}
+        try:
+            with Recorder() as rec:
+                m.set_random_state(5)
+                m.sample(3, conditions=dict(vals))
+        except Exception as ex:
+            return [('conditional-sample-raised-' + type(ex).__name__, 'life %d' % life)]
+        if not rec.calls:
+            continue
+        mean, cov, size = rec.calls[-1]
+        R = m.correlation.to_numpy()
+        free = sorted([j for j in range(d) if j not in cond], key=lambda j: cols[j])
+        zc = np.array([stats.norm.ppf(np.clip(m.univariates[j].cdf(np.array([vals[cols[j]]])), EPSILON, 1 - EPSILON))[0] for j in cond])
+        S11, S12, S22 = R[np.ix_(free, free)], R[np.ix_(free, list(cond))], R[np.ix_(list(cond), list(cond))]
+        emean = S12 @ np.linalg.solve(S22, zc)
+        ecov = S11 - S12 @ np.linalg.solve(S22, S12.T)
+        if mean.shape != emean.shape or not np.allclose(mean, emean, rtol=1e-8, atol=1e-9):
+            probs.append(('conditional-mean-is-not-S12-S22inv-z', 'after-refit' if life else 'first-fit'))
+        if cov.shape != ecov.shape or not np.allclose(cov, ecov, rtol=1e-8, atol=1e-9):
+            probs.append(('conditional-covariance-is-not-the-Schur-complement', 'after-refit' if life else 'first-fit'))
     return probs
 
 
@@ -182,7 +225,7 @@ def run(ctx):
                 'real sampler is run on a model carrying that matrix with dict and Series conditions (values inside and far outside the training '
                 'range) and the (mean, cov) it hands to numpy are compared with the rationals; (b) every conditioning subset for d = 2..6 x '
                 'dict / reversed dict / Series x inside / outside range x n in {1, 5}: schema, conditioned columns, unchanged conditions object; '
-                '(c) the conditional law on large samples (TLC Acceptance bands).  non-trivial = every case; distinct by content')
+                '(c) the conditional law on large samples (TLC Acceptance bands); (d) instances fitted twice (different dependence) and sampled conditionally on the same columns after each fit: parameters observed at numpy equal those of the current correlation.  non-trivial = every case; distinct by content')
     ctx.assumptions = ['the model is given its correlation through the public attribute `correlation`',
                        'the sampler parameters are observed by wrapping numpy.random.multivariate_normal; if the library stops using it the '
                        'check falls back on the statistical law (c)',
@@ -203,7 +246,7 @@ def run(ctx):
     for d in range(2, 7):
         for k in range(1, d):
             for cond in itertools.combinations(range(d), k):
-                for container in ('dict', 'dict-reversed', 'dict-int', 'series'):
+                for container in ('dict', 'dict-reversed', 'dict-int', 'dict-zero', 'series'):
                     for kmul in (0.5, -8.0):
                         sjobs.append((d, cond, container, kmul, 5 if kmul > 0 else 1))
     ljobs = [(d, cond, ctx.seed + 7, 20000 if quick else 100000) for d, cond in
@@ -212,6 +255,13 @@ def run(ctx):
         rex = pool.map(_exact, cases, chunksize=16)
         rsc = pool.map(_schema, sjobs, chunksize=16)
         rlaw = pool.map(_law, ljobs, chunksize=1)
+        fjobs = [(d, cond, ctx.seed + 3 * d + len(cond)) for d in (2, 3, 4) for k in range(1, d) for cond in itertools.combinations(range(d), k)]
+        rref = pool.map(_refit, fjobs, chunksize=2)
+    for job, probs in zip(fjobs, rref):
+        ctx.case('refit|' + json.dumps(job))
+        for p, detail in probs:
+            ctx.violation('C12|refit|d=%d|%s|%s' % (job[0], p, detail), '%s (%s) conditioning on columns %s of a %d-column model fitted twice' % (p, detail, job[1], job[0]),
+                          {'rerun': ['harness.props.C12._refit', list(job)]})
     notes = 0
     for case, probs in zip(cases, rex):
         ctx.case('exact|' + json.dumps([case['R'], case['cond']]))
